@@ -1,3 +1,4 @@
 pub mod crash;
 pub mod seq;
+pub mod wal;
 pub mod wire;
